@@ -1,5 +1,5 @@
 import CasbinVerif.Driver.Proto
-import CasbinVerif.Model.Enforcer
+import CasbinVerif.Model.EnforcerP
 import CasbinVerif.Spec.Perm
 import CasbinVerif.Spec.Mirror
 /-
@@ -85,7 +85,7 @@ structure EnfSt where
   ora : List ((String × List Val) × Res) := []
   evalTab : List (String × Expr) := []
   custom : List (String × Expr) := []
-  enf : Option Enf := none
+  enf : Option EnfP := none
   /-- every management call so far satisfied `Enf.opWF` (the hypothesis of C05.mirror_hist) -/
   histOk : Bool := true
 
@@ -201,68 +201,65 @@ def enfOp (st : EnfSt) (ts : List String) : Option (EnfSt × String × String ×
         let (e2, ok) := e1.loadPolicy
         -- SetWatcher happens after construction in the harness
         let e3 := { e2 with watcher := st.watcher }
-        if ok then some ({ st with enf := some e3, histOk := stateOk e3 }, "ok", "-", true)
+        if ok then some ({ st with enf := some { base := e3 }, histOk := stateOk e3 }, "ok", "-", true)
         else some ({ st with enf := none }, "err", "-", true)
-      else some ({ st with enf := some { e0 with watcher := st.watcher } }, "ok", "-", true)
+      else some ({ st with enf := some { base := { e0 with watcher := st.watcher } } }, "ok", "-", true)
   | op :: rest =>
     match st.enf with
     | none => none
-    | some e =>
+    | some ep =>
+      let e := ep.base
       let ret (e' : Enf) (m s : String) (wf : Bool) : Option (EnfSt × String × String × Bool) :=
-        some ({ st with enf := some e' }, m, s, wf)
+        some ({ st with enf := some { ep with base := e' } }, m, s, wf)
+      let retP (ep' : EnfP) (m s : String) (wf : Bool) : Option (EnfSt × String × String × Bool) :=
+        some ({ st with enf := some ep' }, m, s, wf)
       -- a management call: remember whether it satisfied the theorem's hypothesis
-      let retM (op : MOp) (e' : Enf) (m : String) : Option (EnfSt × String × String × Bool) :=
-        some ({ st with enf := some e', histOk := st.histOk && e.opWF op }, m, "-", true)
-      let hOk := st.histOk
+      let mgmt (op : MOp) : Option (EnfSt × String × String × Bool) :=
+        match ep.applyM op with
+        | some (ep', res) => some ({ st with enf := some ep', histOk := st.histOk && e.opWF op }, showMRes res, "-", true)
+        | none => some ({ st with histOk := false }, "panic", "-", false)
+      let hOk := st.histOk && ep.prm.isEmpty
       match op, rest with
       | "enf", args => do
           let (ctx, vals) ← parseCtxVals args
-          let (e', r) := e.enforceStep ctx none vals
+          let (ep', r) := ep.enforceStep ctx none vals
           let (sp, wf) := specOf e ctx vals
-          ret e' (showEnf r) sp (wf && hOk)
+          retP ep' (showEnf r) sp (wf && hOk)
       | "enfx", args => do
           let (ctx, vals) ← parseCtxVals args
-          let (e', r) := e.enforceStep ctx none vals
+          let (ep', r) := ep.enforceStep ctx none vals
           let (sp, wf) := specOf e ctx vals
-          ret e' (showEnfEx r) (if sp == "-" then "-" else sp ++ " ...") (wf && hOk)
+          retP ep' (showEnfEx r) (if sp == "-" then "-" else sp ++ " ...") (wf && hOk)
       | "enfm", id :: args => do
           let (ctx, vals) ← parseCtxVals args
-          let (e', r) := e.enforceStep ctx (some id) vals
-          ret e' (showEnf r) "-" true
+          let (ep', r) := ep.enforceStep ctx (some id) vals
+          retP ep' (showEnf r) "-" true
       | "add", sec :: pt :: fs => do
           let r ← decodeAll fs
-          let (e', res) := e.addPolicy sec pt r
-          retM (.add sec pt r) e' (showMRes res)
+          mgmt (.add sec pt r)
       | "adds", sec :: pt :: ex :: rs => do
           let rules ← decodeRules rs
-          let (e', res) := e.addPolicies sec pt rules (ex == "1")
-          retM (.addMany sec pt (ex == "1") rules) e' (showMRes res)
+          mgmt (.addMany sec pt (ex == "1") rules)
       | "rm", sec :: pt :: fs => do
           let r ← decodeAll fs
-          let (e', res) := e.removePolicy sec pt r
-          retM (.remove sec pt r) e' (showMRes res)
+          mgmt (.remove sec pt r)
       | "rms", sec :: pt :: rs => do
           let rules ← decodeRules rs
-          let (e', res) := e.removePolicies sec pt rules
-          retM (.removeMany sec pt rules) e' (showMRes res)
+          mgmt (.removeMany sec pt rules)
       | "upd", sec :: pt :: rest => do
           let (a, b) ← splitTwo "|" rest
           let old ← decodeAll a
           let new ← decodeAll b
-          let (e', res) := e.updatePolicy sec pt old new
-          retM (.update sec pt old new) e' (showMRes res)
+          mgmt (.update sec pt old new)
       | "upds", sec :: pt :: rest => do
           let (a, b) ← splitTwo "||" rest
           let olds ← decodeRules a
           let news ← decodeRules b
-          let (e', res) := e.updatePolicies sec pt olds news
-          retM (.updateMany sec pt olds news) e' (showMRes res)
+          mgmt (.updateMany sec pt olds news)
       | "rmf", sec :: pt :: fi :: vals => do
           let fi ← fi.toNat?
           let vs ← decodeAll vals
-          match e.removeFiltered sec pt fi vs with
-          | some (e', res) => retM (.removeFiltered sec pt fi vs) e' (showMRes res)
-          | none => some ({ st with histOk := false }, "panic", "-", false)
+          mgmt (.removeFiltered sec pt fi vs)
       | "updf", sec :: pt :: fi :: rest => do
           let fi ← fi.toNat?
           let (a, b) ← splitTwo "||" rest
@@ -270,18 +267,35 @@ def enfOp (st : EnfSt) (ts : List String) : Option (EnfSt × String × String ×
           let news ← decodeRules b
           let (e', res) := e.updateFiltered sec pt news fi vs
           -- UpdateFilteredPolicies is outside the alphabet of the invariant theorem
-          some ({ st with enf := some e', histOk := false }, showMRes res, "-", true)
-      | "clear", [] => some ({ st with enf := some e.clearPolicy, histOk := stateOk e.clearPolicy }, "ok", "-", true)
+          some ({ st with enf := some { ep with base := e' }.syncCache, histOk := false }, showMRes res, "-", true)
+      | "clear", [] =>
+          match ep.applyM .clear with
+          | some (ep', _) => some ({ st with enf := some ep', histOk := stateOk ep'.base }, "ok", "-", true)
+          | none => none
       | "load", [] =>
-          let (e', ok) := e.loadPolicy
+          let (ep', ok) := ep.loadPolicy
           -- a successful load rebuilds every link from the loaded rules
-          some ({ st with enf := some e', histOk := if ok then stateOk e' else st.histOk }, (if ok then "ok" else "err"), "-", true)
+          some ({ st with enf := some ep', histOk := if ok then stateOk ep'.base else st.histOk }, (if ok then "ok" else "err"), "-", true)
       | "save", [] =>
           let (e', ok) := e.savePolicy
           ret e' (if ok then "ok" else "err") "-" true
       | "buildlinks", [] =>
-          let (e', ok) := e.buildRoleLinks
-          ret e' (if ok then "ok" else "err") "-" true
+          match ep.applyM .buildLinks with
+          | some (ep', res) => retP ep' (match res with | .ok _ => "ok" | .err _ => "err") "-" true
+          | none => none
+      | "addmf", [gt, f] =>
+          let (ep', ok) := ep.addMatchingFunc gt f
+          retP ep' (showBool ok) "-" true
+      | "adddmf", [gt, f] =>
+          let (ep', ok) := ep.addDomainMatchingFunc gt f
+          retP ep' (showBool ok) "-" true
+      | "setrm", [gt] =>
+          let (ep', ok) := ep.resetRoleManager gt
+          some ({ st with enf := some ep', histOk := stateOk ep'.base && st.histOk }, (if ok then "ok" else "err"), "-", true)
+      | "setmodel", [] =>
+          -- SetModel(same definitions): a fresh enforcer state, the adapter and the functions stay
+          let b : Enf := { Enf.init e.md with fn := e.fn, evalTab := e.evalTab, customMatchers := e.customMatchers, adapter := e.adapter }
+          some ({ st with enf := some { base := b }, histOk := true }, "#", "-", true)
       | "set", [flag, b] =>
           let v := b == "1"
           match flag with
@@ -307,22 +321,22 @@ def enfOp (st : EnfSt) (ts : List String) : Option (EnfSt × String × String ×
       | "obs", ["notif"] => ret e (showLog e.notif) "-" true
       | "haslink", gt :: u :: r :: ds => do
           let u ← decodeTok u; let r ← decodeTok r; let ds ← decodeAll ds
-          match e.rm.lookup gt with
-          | some rm =>
+          match ep.hasLink gt u r ds with
+          | some b =>
               -- spec: reachability through the currently listed grouping rules
               let grouping := fun gt => ((e.g.lookup gt).map (·.policy)).getD []
               let wfG := e.md.g.all (fun (gt, count, _) => (grouping gt).all (fun r => count == r.length))
-              ret e (showBool (rm.hasLink u r ds)) (showBool (specLink e.md grouping 10 gt (u :: r :: ds))) (wfG && hOk)
+              ret e (showBool b) (showBool (specLink e.md grouping 10 gt (u :: r :: ds))) (wfG && hOk)
           | none => ret e "err" "-" true
       | "roles", gt :: u :: ds => do
           let u ← decodeTok u; let ds ← decodeAll ds
-          match e.rm.lookup gt with
-          | some rm => ret e (showSet (rm.getRoles u ds)) "-" true
+          match ep.getRoles gt u ds with
+          | some l => ret e (showSet l) "-" true
           | none => ret e "err" "-" true
       | "users", gt :: r :: ds => do
           let r ← decodeTok r; let ds ← decodeAll ds
-          match e.rm.lookup gt with
-          | some rm => ret e (showSet (rm.getUsers r ds)) "-" true
+          match ep.getUsers gt r ds with
+          | some l => ret e (showSet l) "-" true
           | none => ret e "err" "-" true
       | _, _ => none
   | [] => none
